@@ -160,7 +160,9 @@ fn build_new(sim: &Sim, c: &Ctx18, rng: &mut StdRng, live: &[(usize, usize)]) ->
             desc_deps.push(json!([refid(sim, c, &c.as_dep.tx_hash()), Unpack::<u32>::unpack(&c.as_dep.index())]));
         }
     }
-    let nout = if cls == "structure" { 0 } else { rng.gen_range(1..=2usize) };
+    // (capacity: one output that exceeds the inputs -- with two, the second could fall below the 62 CKB minimum
+    //  and be left out, which made the rest fit the inputs again)
+    let nout = if cls == "structure" { 0 } else if cls == "capacity" { let _ = rng.gen_range(1..=2usize); 1 } else { rng.gen_range(1..=2usize) };
     let mut left = if cls == "capacity" { total + rng.gen_range(1..50) } else { total };
     for k in 0..nout {
         let cap = if k + 1 == nout { left } else { (left / 2).max(62) };
@@ -353,6 +355,18 @@ fn scenario(rng: &mut StdRng, sc: usize, real_out: &mut dyn Write, kv: &HashMap<
                     }
                 }
             };
+            if std::env::var("VERIF_DEBUG").is_ok() && res == "ok" && c.news[k].desc["cls"] == "capacity" {
+                let outs: Vec<u64> = tx.outputs().into_iter().map(|o| Unpack::<Capacity>::unpack(&o.capacity()).as_u64()).collect();
+                let mut ins: Vec<String> = Vec::new();
+                for op in tx.input_pts_iter() {
+                    let idx: u32 = op.index().unpack();
+                    let src = c.news.iter().find(|n| n.view.hash() == op.tx_hash()).map(|n| n.view.clone())
+                        .or_else(|| sim.chain.txs.iter().find(|t| t.view.hash() == op.tx_hash()).map(|t| t.view.clone()));
+                    let cap = src.and_then(|v| v.outputs().get(idx as usize)).map(|o| Unpack::<Capacity>::unpack(&o.capacity()).as_u64());
+                    ins.push(format!("{}#{}={:?}", refid(&sim, &c, &op.tx_hash()), idx, cap));
+                }
+                eprintln!("DEBUG capacity tx accepted: id {} ins {:?} outs {:?}", id, ins, outs);
+            }
             let sent = relay_sent(&mut sim, &c);
             emit(json!({"ev": "Submit", "a": {"t": id, "kind": if estimate { "estimate" } else { "send" }, "desc": c.news[k].desc},
                 "res": res, "cycles": cycles, "sent": sent, "pool": pool_state(&sim, &c), "err": errmsg.chars().take(160).collect::<String>()}), &mut lines);
